@@ -188,54 +188,73 @@ fn stub_is_legal_tag<'a, P: crate::legal::Prechecker>(_c: &Checker<'a, P>, mv: M
 pub struct OneSink { pub got: Option<Move>, pub n: u32 }
 impl MovePush for OneSink { fn push(&mut self, m: Move) { self.got = Some(m); self.n += 1; } }
 
-harness! {
-    #[kani::unwind(14)]
-    #[kani::stub(MoveGenImpl::gen_all, stub_gen_all)]
-    #[kani::stub(MoveGenImpl::gen_capture, stub_gen_capture)]
-    #[kani::stub(MoveGenImpl::gen_simple, stub_gen_simple)]
-    #[kani::stub(MoveGenImpl::gen_simple_no_promote, stub_gen_simple_no_promote)]
-    #[kani::stub(MoveGenImpl::gen_simple_promote, stub_gen_simple_promote)]
-    #[kani::stub(MoveGenImpl::gen_for_has_legal_moves, stub_gen_for_has_legal_moves)]
-    #[kani::stub(MoveGenImpl::san_candidates, stub_san_candidates)]
-    #[kani::stub(MoveGenImpl::san_pawn_capture_candidates, stub_san_pawn_capture_candidates)]
-    #[kani::stub(crate::legal::Checker::is_legal, stub_is_legal_tag)]
-    #[kani::stub(crate::attack::rook, crate::verif_anyboard::stub_rook)]
-    #[kani::stub(crate::attack::bishop, crate::verif_anyboard::stub_bishop)]
-    fn c01_public_generator_glue() {
-        let b = ab::any_board();
-        ab::assume_one_king_each(&b);
-        let tag = vk::any_u8(); vk::assume(tag < 64);
-        unsafe { TAG = tag; }
-        let white = b.r.side == Color::White;
-        let legal_tag = tag & 1 == 1;
-        let which = vk::any_u8(); vk::assume(which < 5);
-        // semilegal::<g>_into: the method of the same name, instantiated for the side to move, into the caller's sink
-        let mut s = OneSink { got: None, n: 0 };
-        match which { 0 => semilegal::gen_all_into(&b, &mut s), 1 => semilegal::gen_capture_into(&b, &mut s), 2 => semilegal::gen_simple_into(&b, &mut s),
-                      3 => semilegal::gen_simple_no_promote_into(&b, &mut s), _ => semilegal::gen_simple_promote_into(&b, &mut s) }
-        assert!(s.n == 1 && s.got == Some(marker(white, which)));
-        // semilegal::<g>: the same moves, as a list
-        let l = match which { 0 => semilegal::gen_all(&b), 1 => semilegal::gen_capture(&b), 2 => semilegal::gen_simple(&b),
-                              3 => semilegal::gen_simple_no_promote(&b), _ => semilegal::gen_simple_promote(&b) };
-        assert!(l.len() == 1 && l[0] == marker(white, which));
-        // legal::<g>: that list filtered by the legality decision, nothing else
-        let ll = match which { 0 => legal::gen_all(&b), 1 => legal::gen_capture(&b), 2 => legal::gen_simple(&b),
-                               3 => legal::gen_simple_no_promote(&b), _ => legal::gen_simple_promote(&b) };
-        assert!(ll.len() == if legal_tag { 1 } else { 0 });
-        if legal_tag { assert!(ll[0] == marker(white, which)); }
-        // has_legal_moves: "the filtered, refusing run of gen_for_has_legal_moves was refused"
-        assert!(has_legal_moves(&b) == legal_tag);
-        assert!(b.has_legal_moves() == legal_tag);
-        // SAN candidate wrappers: the method for the side to move, through the legality filter
-        let mut s6 = OneSink { got: None, n: 0 };
-        san_candidates(&b, Piece::Queen, ab::coord(0), &mut s6);
-        assert!(s6.n == if legal_tag { 1 } else { 0 });
-        if legal_tag { assert!(s6.got == Some(marker(white, 6))); }
-        let mut s7 = OneSink { got: None, n: 0 };
-        san_pawn_capture_candidates(&b, File::A, File::B, None, &mut s7);
-        assert!(s7.n == if legal_tag { 1 } else { 0 });
-        if legal_tag { assert!(s7.got == Some(marker(white, 7))); }
-        cover!(legal_tag && which == 4 && !white);
-        cover!(!legal_tag);
-    }
+macro_rules! glue_harness {
+    ($name:ident, $body:expr) => {
+        harness! {
+            #[kani::unwind(14)]
+            #[kani::stub(MoveGenImpl::gen_all, stub_gen_all)]
+            #[kani::stub(MoveGenImpl::gen_capture, stub_gen_capture)]
+            #[kani::stub(MoveGenImpl::gen_simple, stub_gen_simple)]
+            #[kani::stub(MoveGenImpl::gen_simple_no_promote, stub_gen_simple_no_promote)]
+            #[kani::stub(MoveGenImpl::gen_simple_promote, stub_gen_simple_promote)]
+            #[kani::stub(MoveGenImpl::gen_for_has_legal_moves, stub_gen_for_has_legal_moves)]
+            #[kani::stub(MoveGenImpl::san_candidates, stub_san_candidates)]
+            #[kani::stub(MoveGenImpl::san_pawn_capture_candidates, stub_san_pawn_capture_candidates)]
+            #[kani::stub(crate::legal::Checker::is_legal, stub_is_legal_tag)]
+            #[kani::stub(crate::attack::rook, crate::verif_anyboard::stub_rook)]
+            #[kani::stub(crate::attack::bishop, crate::verif_anyboard::stub_bishop)]
+            fn $name() {
+                let b = ab::any_board();
+                ab::assume_one_king_each(&b);
+                let tag = vk::any_u8(); vk::assume(tag < 64);
+                unsafe { TAG = tag; }
+                let white = b.r.side == Color::White;
+                let legal_tag = tag & 1 == 1;
+                let f: fn(&Board, bool, bool) = $body;
+                f(&b, white, legal_tag);
+                cover!(legal_tag && !white);
+                cover!(!legal_tag && white);
+            }
+        }
+    };
 }
+// semilegal::<g>_into: the method of the same name, instantiated for the side to move, into the caller's sink
+glue_harness!(c01_glue_into, |b, white, _l| {
+    let mut s = OneSink { got: None, n: 0 };
+    semilegal::gen_all_into(b, &mut s); assert!(s.n == 1 && s.got == Some(marker(white, 0)));
+    semilegal::gen_capture_into(b, &mut s); assert!(s.n == 2 && s.got == Some(marker(white, 1)));
+    semilegal::gen_simple_into(b, &mut s); assert!(s.n == 3 && s.got == Some(marker(white, 2)));
+    semilegal::gen_simple_no_promote_into(b, &mut s); assert!(s.n == 4 && s.got == Some(marker(white, 3)));
+    semilegal::gen_simple_promote_into(b, &mut s); assert!(s.n == 5 && s.got == Some(marker(white, 4)));
+});
+// has_legal_moves and the SAN candidate wrappers: the method for the side to move through the legality filter
+glue_harness!(c01_glue_has_legal_and_san, |b, white, legal_tag| {
+    assert!(has_legal_moves(b) == legal_tag);
+    assert!(b.has_legal_moves() == legal_tag);
+    let mut s6 = OneSink { got: None, n: 0 };
+    san_candidates(b, Piece::Queen, ab::coord(0), &mut s6);
+    assert!(s6.n == if legal_tag { 1 } else { 0 });
+    if legal_tag { assert!(s6.got == Some(marker(white, 6))); }
+    let mut s7 = OneSink { got: None, n: 0 };
+    san_pawn_capture_candidates(b, File::A, File::B, None, &mut s7);
+    assert!(s7.n == if legal_tag { 1 } else { 0 });
+    if legal_tag { assert!(s7.got == Some(marker(white, 7))); }
+});
+// semilegal::<g> / legal::<g>: the same moves as a list, resp. that list filtered by the legality
+// decision and nothing else (real UnsafeMoveList and ArrayVec::retain); one generator per harness
+macro_rules! glue_list {
+    ($name:ident, $g:ident, $which:expr) => {
+        glue_harness!($name, |b, white, legal_tag| {
+            let l = semilegal::$g(b);
+            assert!(l.len() == 1 && l[0] == marker(white, $which));
+            let ll = legal::$g(b);
+            assert!(ll.len() == if legal_tag { 1 } else { 0 });
+            if legal_tag { assert!(ll[0] == marker(white, $which)); }
+        });
+    };
+}
+glue_list!(c01_glue_list_gen_all, gen_all, 0);
+glue_list!(c01_glue_list_gen_capture, gen_capture, 1);
+glue_list!(c01_glue_list_gen_simple, gen_simple, 2);
+glue_list!(c01_glue_list_gen_simple_no_promote, gen_simple_no_promote, 3);
+glue_list!(c01_glue_list_gen_simple_promote, gen_simple_promote, 4);
